@@ -4,16 +4,27 @@
   FULL STATEMENT (not proved for the whole machine): for every fuel, the probabilities of the
   yielded sequence are non-increasing (heap search), the bucket tuples non-decreasing (bucket
   search); every strictly more probable program was yielded before.
+  It is FALSE on recursive grammars (finding_C03_HS_reentrant).
 
-  Proved here (the ingredients of the blueprint DESIGN B.2 (I4)), for all inputs:
-    * on an array satisfying the heap invariant of heapq the root — what `heappop` returns — is a
-      minimum (C03_HS_root_min), for any order whose `not <` is transitive;
-    * the two orders used have that property: reversed `<` on probabilities (C03_HS_prob_order)
-      and `Bucket.__lt__` (irreflexive, asymmetric, transitive: C03_HS_bucket_*);
-    * monotonicity: replacing an argument by a less probable one does not increase the product
-      (C03_HS_prob_mono); `+=` of buckets is strictly monotone (C03_HS_bucket_add_mono).
-  NOT proved: that `heappush`/`heappop` re-establish the heap invariant, and the composition into
-  "the popped sequence is sorted"; both are checked on every generated case (exact Fractions).
+  Proved here, for all inputs:
+    * heapq (literal port of `_siftdown` / `_siftup`) RE-ESTABLISHES the heap invariant on push and
+      pop and pop returns a minimum, for every strict weak order (`<` asymmetric, `not <`
+      transitive; both are needed: the sift loops swap on `<` only): C03_HS_heappush_inv,
+      C03_HS_heappop_inv; heapsort corollary C03_HS_heap_sorted; on a valid heap the root is a
+      minimum (C03_HS_root_min);
+    * the two orders used are strict weak orders: reversed `<` on probabilities
+      (C03_HS_prob_weakOrder), `Bucket.__lt__` on tuples of one size (C03_HS_bucket_weakOrder);
+    * every heap of the machine is valid in every reachable state, so every pop returns a most
+      probable element of its heap (C03_HS_heaps_valid, C03_HS_pop_max) — any grammar, any filter;
+    * monotonicity: replacing an argument by a less probable one does not increase the probability
+      (C03_HS_prob_mono; whole programs: HS.prob_set_le); `+=` of buckets is strictly monotone;
+    * on ACYCLIC context-free grammars without filter the order invariant `HS.OInv` (DESIGN B.2 (I1),
+      (I4)) is preserved by `query` under the precondition (I5) (C03_HS_order_step), and the
+      yielded sequence is non-increasing in probability provided the state produced by the prologue
+      satisfies the invariant (C03_HS_sorted_partial).
+  NOT proved: that the prologue establishes the order invariant ((I1) at initialisation: the first
+  program popped for `S` is `max_priority[S]`), the bucket-search version of the order invariant,
+  and prefix completeness; checked on every generated case (exact Fractions).
 -/
 import PS.Model.Enum.HeapSearch
 import PS.Proofs.Enum.Heapq
